@@ -165,27 +165,27 @@ macro_rules! h {
     };
 }
 
-//@ obl: id=U12.osu.protocol.n0 harness=u12_osu_protocol_n0 props=C15,C02 tier=quick kind=bounded
+//@ obl: id=U12.osu.protocol.n0 harness=u12_osu_protocol_n0 props=C15,C02,C03 tier=quick kind=bounded
 //@ fns: OsuGradualDifficulty::next, OsuGradualDifficulty::nth, OsuGradualDifficulty::len, OsuGradualDifficulty::size_hint, OsuGradualDifficulty::increment_combo
 //@ bound: bounded: map with N = 0 objects; idx and nth argument k range over all usize
 //@ clause: C15 (a) len()==remaining, size_hint()==(remaining,Some(remaining)); (b) next() Some iff remaining>0, then idx'=idx+1, else unchanged; (c) nth(k) Some iff k<remaining, consumes min(k+1,remaining); (d) invariant preserved, no arithmetic overflow / index panic; the i-th value counts exactly i objects
 h!(u12_osu_protocol_n0, step_protocol, 0);
-//@ obl: id=U12.osu.protocol.n1 harness=u12_osu_protocol_n1 props=C15,C02 tier=quick kind=bounded
+//@ obl: id=U12.osu.protocol.n1 harness=u12_osu_protocol_n1 props=C15,C02,C03 tier=quick kind=bounded
 //@ fns: OsuGradualDifficulty::next, OsuGradualDifficulty::nth, OsuGradualDifficulty::len, OsuGradualDifficulty::size_hint
 //@ bound: bounded: N = 1 object; idx, k all usize
 //@ clause: C15 (a)-(d) and count clause as U12.osu.protocol.n0
 h!(u12_osu_protocol_n1, step_protocol, 1);
-//@ obl: id=U12.osu.protocol.n2 harness=u12_osu_protocol_n2 props=C15,C02 tier=quick kind=bounded
+//@ obl: id=U12.osu.protocol.n2 harness=u12_osu_protocol_n2 props=C15,C02,C03 tier=quick kind=bounded
 //@ fns: OsuGradualDifficulty::next, OsuGradualDifficulty::nth, OsuGradualDifficulty::len, OsuGradualDifficulty::size_hint
 //@ bound: bounded: N = 2 objects; idx, k all usize
 //@ clause: C15 (a)-(d) and count clause as U12.osu.protocol.n0
 h!(u12_osu_protocol_n2, step_protocol, 2);
-//@ obl: id=U12.osu.protocol.n3 harness=u12_osu_protocol_n3 props=C15,C02 tier=thorough kind=bounded budget=3000
+//@ obl: id=U12.osu.protocol.n3 harness=u12_osu_protocol_n3 props=C15,C02,C03 tier=thorough kind=bounded budget=3000
 //@ fns: OsuGradualDifficulty::next, OsuGradualDifficulty::nth, OsuGradualDifficulty::len, OsuGradualDifficulty::size_hint
 //@ bound: bounded: N = 3 objects; idx, k all usize
 //@ clause: C15 (a)-(d) and count clause as U12.osu.protocol.n0
 h!(u12_osu_protocol_n3, step_protocol, 3);
-//@ obl: id=U12.osu.protocol.n4 harness=u12_osu_protocol_n4 props=C15,C02 tier=thorough kind=bounded budget=3000
+//@ obl: id=U12.osu.protocol.n4 harness=u12_osu_protocol_n4 props=C15,C02,C03 tier=thorough kind=bounded budget=3000
 //@ fns: OsuGradualDifficulty::next, OsuGradualDifficulty::nth, OsuGradualDifficulty::len, OsuGradualDifficulty::size_hint
 //@ bound: bounded: N = 4 objects; idx, k all usize
 //@ clause: C15 (a)-(d) and count clause as U12.osu.protocol.n0
